@@ -58,7 +58,7 @@ MANIFEST = dict(
     "Strip options in binary read mode (open finding C14-g: bytes.strip() removes ASCII blanks only): C14_strip_field_binary "
     "(what the code does: the table of bytes.strip()-ed cells), C14_binary_strip_field_partial (for every ASCII-transparent encoder "
     "and every table no cell of which has a non-ASCII-blank str.isspace() character at an edge, binary mode with strip_field yields "
-    "the text-mode table of C14_strip_field, encoded), the full statement kept as C14_binary_strip_field_stmt and refuted by "
+    "the text-mode table of C14_strip_field, encoded; + _positional variants), the full statement kept as C14_binary_strip_field_stmt and refuted by "
     "C14_binary_strip_field_cex / C14_binary_strip_cex (x + U+00A0; a line that is only \\x1c: EOFError in text mode, a record in "
     "binary mode), C14_strip_line_clean_binary. C14_native_leading_blank_cex: a blank line before the header makes csv.DictReader "
     "(column_names=None) return every line under the key None - the standard reader's behaviour, load_csv yields the table. "
